@@ -1,13 +1,16 @@
 #!/usr/bin/env python3
+"""Regenerate every lean/W2c2Verif/Gen/*.lean from the current /repo (or VERIF_REPO): every extractor tools/extract/gen_*.py that
+declares GEN_NAME and generate(repo)."""
 import os, sys
 HERE = os.path.dirname(os.path.abspath(__file__))
 sys.path.insert(0, HERE); sys.path.insert(0, os.path.join(HERE, "extract"))
 import vlib
-GENS = [("Macros", "gen_macros")]
-for extra in ("gen_emit", "gen_loadstore", "gen_literals", "gen_files", "gen_atomics", "gen_reader", "gen_array", "gen_wasi", "gen_wasipath", "gen_memfuncs", "gen_instantiate", "gen_initmem", "gen_atomic_emit", "gen_bufread", "gen_wasi_raw", "gen_mangle", "gen_inittables"):
-    if os.path.exists(os.path.join(HERE, "extract", extra + ".py")):
-        mod = __import__(extra)
-        GENS.append((mod.GEN_NAME, extra))
+GENS = []
+for f in sorted(os.listdir(os.path.join(HERE, "extract"))):
+    if f.startswith("gen_") and f.endswith(".py"):
+        mod = __import__(f[:-3])
+        if hasattr(mod, "GEN_NAME") and hasattr(mod, "generate"):
+            GENS.append((mod.GEN_NAME, f[:-3]))
 r = vlib.regenerate(GENS)
 for k, v in r.items():
     print(k, "ok" if v["ok"] else "FAIL " + v["error"], "(changed)" if v["changed"] else "")
